@@ -41,6 +41,11 @@ def run(idx, rep, tier):
             if isinstance(n, ast.Attribute) and n.attr in ("collecting", "_collecting") and isinstance(n.ctx, ast.Load):
                 reads.append((fi, n))
     for fi, n in reads:
+        # the run itself: the per-line driver, the match components, the scanner and the modes.  What the archive does after the run
+        # (the spooler leaving an empty data.csv for a collecting run) is not part of the run.
+        in_run = fi.file == "csvpath/csvpath.py" or fi.file.startswith(("csvpath/matching/", "csvpath/scanning/", "csvpath/modes/"))
+        if not in_run:
+            continue
         okr = fi.qual == "CsvPath.next" or (fi.cls == "CsvPath" and fi.name == "collecting")
         rep.check(okr, "R2", f"{fi.file}::{fi.qual} reads collecting", f"`{unparse(n)}`: only the generator's unmatched step may depend on whether the caller is collect(); "
                   "anything else makes collect(), next() and fast_forward() different runs", K.where(fi, n))
